@@ -32,7 +32,7 @@ type c12Case struct {
 	Pre int `json:"pre,omitempty"`
 }
 
-var c12DirNames = []string{"License", "Header", "Supplement", "MIT", "Apache-2.0", "a", "b.c", "xtxt", "notes.txt", "v 1", "ünï", "Licen%E7a"}
+var c12DirNames = []string{"License", "Header", "Supplement", "MIT", "Apache-2.0", "a", "b.c", "xtxt", "notes.txt", "v 1", "ünï", "Licen%E7a", ".staging", ".x"}
 var c12FileNames = []string{"license.txt", "a.txt", "header.TXT", "READMEtxt", "notes.md", "LICENSE", "b.txt", "x.txt.bak", "c.txt", ".txt", "txt", "licen%E7a.txt", "%FF%FE.txt"}
 var c12RootNames = []string{"root", "corpus.d", "rtxt", "r.o.o.t", "assets"}
 var c12Spellings = []string{"abs", "abs/", "abs//", "abs/.", "rel", "rel/", "./rel", "./rel/", "../parent/rel", "dot", "rel/./", "abs/../root", "./parent/rel"}
